@@ -56,6 +56,17 @@ def run(ctx):
     if neg.violated != "NoMapCycle":
         raise vlib.Inconclusive("Lock model: the refuted variant (map lock held across cleanup) is not refuted")
     ctx.extra["lock_model_map_variant_refuted"] = True
+    # OpenChannel holds the channel lock across gs.Request while the outgoing-request hook runs: when the events handler refuses the request the
+    # hook tells the opener and releases the channel from another goroutine (F17 fix); the refuted variant (cleanup from the hook itself) must be caught
+    op = ctx.tlc("Lock", "lock-open.cfg", timeout=600)
+    if op.violated:
+        raise vlib.Inconclusive("Lock model: the OpenChannel / outgoing-hook path has a stuck state: %s\n%s" % (op.violated, op.out[-1500:]))
+    vlib.tlc_must_pass(op, "Lock (open path)")
+    ctx.add_model(op)
+    opneg = ctx.tlc("Lock", "lock-open-neg.cfg", timeout=300)
+    if opneg.violated != "NoStuckCall":
+        raise vlib.Inconclusive("Lock model: the refuted variant (CleanupChannel called from the outgoing-request hook) is not refuted")
+    ctx.extra["lock_model_open_variant_refuted"] = True
     b = ctx.go_bin("lockx", race=True)
     out1 = ctx.path("lock-replay.ndjson")
     r = ctx.run_go(b, "TestReplay", env={"VERIF_OUT": out1}, timeout=300)
@@ -107,6 +118,22 @@ def run(ctx):
             ctx.violation({"rule": "C20.everyCallReturns", "scenario": "pair:InReq||" + v["op"], "reenter": v["reenter"]},
                           "C20.everyCallReturns violated: %s issued while an incoming-request hook is in its handler (re-entry %s) - not returned: %s (case %s)"
                           % (v["op"], v["reenter"], o["stuck"], v["case"]), detail=c16.pair_detail(v, o))
+    # OpenChannel for a channel whose OnChannelOpened the manager refuses (unknown / terminated meanwhile): the outgoing-request hook
+    # releases the channel while OpenChannel still holds its lock inside gs.Request - every call has to return
+    oro = ctx.path("openrefused.ndjson")
+    ctx.must_run_go(bp, "TestOpenRefused", env={"VERIF_OUT": oro}, timeout=300)
+    nor, orv = stages.judge(ctx, oro, module="ReturnsJudge")
+    oidx = stages.index_obs(oro)
+    for v in orv:
+        c = oidx[v["case"]]
+        if v["rule"] == "harness":
+            raise vlib.Inconclusive("TestOpenRefused: " + c["err"])
+        ctx.violation({"rule": v["rule"], "scenario": v["op"]}, "%s violated: Transport.OpenChannel (%s, restart=%s) did not return within %d ms after the events handler refused OnChannelOpened; parked: %s"
+                      % (v["rule"], c["dir"], c["restart"], c["at_ms"], [x[:160] for x in c["stuck"][:1]]), detail=c)
+    for c in oidx.values():
+        ctx.traces += 1
+        ctx.evaluations += 1
+        ctx.distinct.add(("openRefused", c["dir"], c["restart"], c["returned"]))
     both = ctx.path("lock-obs.ndjson")
     with open(both, "w") as f:
         for p in (out1, out2):
